@@ -30,6 +30,7 @@ extern void libconfig_fatal_error(const char *message);
 extern void *libconfig_malloc(size_t size);
 extern void *libconfig_calloc(size_t nmemb, size_t size);
 extern void *libconfig_realloc(void *ptr, size_t size);
+extern char *libconfig_strdup(const char *s);
 
 #define __new(T) (T *)libconfig_calloc(1, sizeof(T)) /* zeroed */
 #define __delete(P) free((void *)(P))
